@@ -1049,6 +1049,27 @@ pub fn run_handshake_mismatch(seed: u64, params: &Params, out: &mut ScnOut) {
 }
 
 pub fn run_family(family: &str, scn_seed: u64, _idx: u64, params: &Params, out: &mut ScnOut) -> bool {
+    // C19 at endpoint level: whatever was allocated inside calls into uflow (Client, Server,
+    // RemoteClient handles, events, payloads, datagrams) is gone again once every endpoint and the
+    // whole world have been dropped
+    let heap0 = crate::alloc::live_bytes(crate::alloc::TAG_UFLOW);
+    let n_viol = out.violations.len();
+    let ok = run_family_inner(family, scn_seed, params, out);
+    if ok && crate::checkalloc_active() && !out.violations[n_viol..].iter().any(|v| v.prop == "C03") {
+        let live = crate::alloc::live_bytes(crate::alloc::TAG_UFLOW) - heap0;
+        out.counters.inc("endpoint_teardowns_checked");
+        if live != 0 {
+            out.violations.push(Violation::new("C19", "leak-on-teardown", "C19:leak-on-teardown:endpoints", format!("{} bytes allocated inside calls into uflow are still live after every Client, the Server and all handles, events and datagrams of a {} scenario were dropped", live, family)));
+        }
+        let (n, v) = crate::alloc::take_violations();
+        if n > 0 {
+            out.violations.push(Violation::new("C19", "layout-mismatch", "C19:layout-mismatch:endpoints", format!("{} allocator-contract violations in a {} scenario; first: freed with size {} align {}, allocated with size {} align {}", n, family, v[0].free_size, v[0].free_align, v[0].alloc_size, v[0].alloc_align)));
+        }
+    }
+    ok
+}
+
+fn run_family_inner(family: &str, scn_seed: u64, params: &Params, out: &mut ScnOut) -> bool {
     match family {
         "lifecycle" => run_lifecycle(scn_seed, params, out),
         "handshake" => run_handshake(scn_seed, params, out),
